@@ -103,3 +103,19 @@ package queue
 //@ params q, maxSize
 //@ ensures result1 != nil ==> len(result0) == 0
 //@ ensures forall i int :: 0 <= i && i < len(result0) ==> result0[i] != nil && ((result0[i].MessageWithID.(type *Publish) && result0[i].MessageWithID.(*Publish) != nil && result0[i].MessageWithID.(*Publish).Message != nil && result0[i].MessageWithID.(*Publish).Message.PacketID != 0) || (result0[i].MessageWithID.(type *Pubrel) && result0[i].MessageWithID.(*Pubrel) != nil && result0[i].MessageWithID.(*Pubrel).PacketID != 0))
+
+// Remove / Replace as seen by the acknowledgement handlers: $removes / $lastRemoved and $replaces / $lastReplaced
+// record the calls.
+//@ ghost field (Store).removes int
+//@ ghost field (Store).lastRemoved uint16
+//@ ghost field (Store).replaces int
+//@ ghost field (Store).lastReplaced *Elem
+//@ func (Store).Remove
+//@ params q, pid
+//@ modifies ghost(q.$removes), ghost(q.$lastRemoved)
+//@ ensures q.$removes == old(q.$removes) + 1 && q.$lastRemoved == pid
+//@ func (Store).Replace
+//@ params q, elem
+//@ requires elem != nil
+//@ modifies ghost(q.$replaces), ghost(q.$lastReplaced)
+//@ ensures q.$replaces == old(q.$replaces) + 1 && q.$lastReplaced == elem
